@@ -2,8 +2,8 @@
    inputs the Go harness ran through the real code and compares with what the code did.
 
    Case lines:
-     X <bytes> | <DecodeHSMSMessage> | <DecodeHSMSPayload> | <DecodeOwnedHSMSPayload> | <decodeOwnedFrame>
-         each result: PANIC | E <H|B|P|S> | OK D <hdr> <body> | OK C <hdr> <reply>
+     X <bytes> | <DecodeHSMSMessage> | <DecodeHSMSPayload> | <DecodeOwnedHSMSPayload> | <decodeOwnedFrame> | <DataMessageCodec.UnmarshalBinary>
+         each result: PANIC | E <H|B|P|S> | OK D <hdr> <body> | OK C <hdr> <reply>   (codec: E C = decodes to a control message)
          (model side: the INSTRUMENTED twins; the driver also checks twin = plain function and
           acceptance = wf_frameb / wf_payloadb, and the SType set against the regenerated IsValidSType)
      K <frame> <bodyok> <k> <op>*k | <obs>*k | <holder hdr>*
@@ -78,7 +78,11 @@ let check _ln line =
      | ["X"; h] ->
        let bs = zbytes_of_hex h in
        let m = decode_message_chk frame_cap bs and p = decode_payload_chk frame_cap bs and o = decode_owned_chk bs in
-       let model = [render_chk m; render_chk p; render_chk p; render_chk o] in
+       (* DataMessageCodec.UnmarshalBinary: the whole-buffer decoder, data messages only *)
+       let codec = match m with
+         | Val (Ok (MCtrl _)) -> "E C"
+         | _ -> render_chk m in
+       let model = [render_chk m; render_chk p; render_chk p; render_chk o; codec] in
        let obs = List.map norm obs in
        if model <> obs then Some (Printf.sprintf "decode case=[%s] model=[%s] impl=[%s]" h (String.concat " | " model) (String.concat " | " obs))
        else begin
